@@ -43,11 +43,11 @@ func VerifC03_PassStaysWithinLimits() {
 	existing := verifrt.Choice("existingNode", 0, 1)
 	if existing == 1 {
 		w.addNode("node-1", "pool-1", "it-l", v1.CapacityTypeOnDemand, "zone-1", pwList(resource.MustParse("16")), pwInitialized)
-		w.addPod("bound-1", "node-1", verifrt.Quantity("bound.cpu", 0, 16000))
+		w.addPod("bound-1", "node-1", verifrt.MilliQuantity("bound.cpu", 0, 16000))
 	}
 	n := verifrt.Choice("pendingPods", 2, verifrt.Bound("maxPending", 2, 3))
 	for i := 0; i < n; i++ {
-		w.addPod("pending-"+strconv.Itoa(i), "", verifrt.Quantity("pending-"+strconv.Itoa(i)+".cpu", 1, 16000))
+		w.addPod("pending-"+strconv.Itoa(i), "", verifrt.MilliQuantity("pending-"+strconv.Itoa(i)+".cpu", 1, 16000))
 	}
 	w.deliver()
 
